@@ -176,6 +176,7 @@ def run(c):
     e2e_leg.e2e_leg(c, random.Random(c.seed + 21), 8 if quick else 120)
     e2e_leg.two_lives_leg(c)
     e2e_leg.two_lives_leg(c, same_object=True)
+    e2e_leg.two_lives_leg(c, same_object=True, register=False)
     if not quick:
         e2e_leg.repo_it_leg(c)
 
